@@ -73,13 +73,15 @@ def violated_precondition(oldshape, newshape, offset, mode, pad_const=0,
     operator* (input of forward, output of adjoint).
     """
     widths = pad_widths(oldshape, newshape, offset)
-    grows = any(k == 'grow' for k, _, _ in widths)
+    # axes in which the *output* of this call is larger than its input get
+    # filled with the constant: the constant must then fit the dtype
+    filled = any(k == ('grow' if direction == 'forward' else 'shrink')
+                 for k, _, _ in widths)
     if mode == 'constant':
-        if direction == 'adjoint':
-            if pad_const != 0:
-                return 'adjoint-needs-zero-pad_const'
-        elif grows and not can_hold(pad_const, dtype):
+        if filled and not can_hold(pad_const, dtype):
             return 'pad_const-not-castable'
+        if direction == 'adjoint' and pad_const != 0:
+            return 'adjoint-needs-zero-pad_const'
         return None
     for (kind, left, right), n in zip(widths, oldshape):
         if kind != 'grow':
